@@ -153,7 +153,7 @@ PROFILES = {
     "c16": {"obj_tilt_p": 0.2, "far_p": 0.15, "raw_p": 0.3, "sibling_p": 0.5, "ego_tilt_p": 0.5, "max_samples": 24, "max_actors": 16, "enable_p": 0.1, "tasks": {"detection": 3, "tracking": 3, "fp_validation": 1}},
     "c19": {"sibling_p": 0.35, "analyze_p": 1.0, "force": ["analyze"], "fp_gt_p": 0.15, "max_samples": 10,
             "tasks": {"detection": 5, "tracking": 3, "fp_validation": 2}},
-    "c01": {"dim2d_p": 0.2, "merge_p": 0.45, "dup_labels_p": 0.5, "radii_list_p": 0.55, "force": ["ghost", "dup_detection"], "contested_p": 0.7, "tasks": {"detection": 5, "tracking": 2, "fp_validation": 3},
+    "c01": {"dim2d_p": 0.2, "wide_scales": [250.0], "merge_p": 0.45, "dup_labels_p": 0.5, "radii_list_p": 0.55, "force": ["ghost", "dup_detection"], "contested_p": 0.7, "tasks": {"detection": 5, "tracking": 2, "fp_validation": 3},
             "fp_gt_p": 0.2},
     "c04": {"dim2d_p": 0.2, "obj_tilt_p": 0.12, "force": ["ghost", "label_flip", "conf_near_tie"], "multi_thr_p": 0.8, "tasks": {"detection": 3, "tracking": 2}},
     "c08": {"dim2d_p": 0.2, "force": ["dup", "pf_change", "pose_noise"], "multi_thr_p": 1.0, "tasks": {"detection": 3, "tracking": 2}},
@@ -244,7 +244,7 @@ def _make_world(rng, prof, task, dim2=False):
     fp_gt = (not fp_world) and rng.random() < prof["fp_gt_p"]
     n_act = rng.choice([0, 1, 2, 3]) if rng.random() < 0.35 else rng.randint(0, prof["max_actors"])
     actors = []
-    range_scale = rng.choice([30.0, 60.0, 120.0])
+    range_scale = rng.choice([30.0, 60.0, 120.0] + list(prof.get("wide_scales", [])))
     for ai in range(n_act):
         if fp_world or (fp_gt and rng.random() < 0.3):
             cat, lab = "false_positive", "false_positive"
@@ -588,7 +588,7 @@ def _make_config(rng, prof, world):
     if world.get("dim") == 2:
         return _make_config_2d(rng, prof, world, task, labels, merge)
     frame = _wchoice(rng, prof["frames"])
-    scale = rng.choice([30.0, 60.0, 120.0])
+    scale = rng.choice([30.0, 60.0, 120.0] + list(prof.get("wide_scales", [])))
     cfg = {
         "task": task,
         "frame": frame,
